@@ -10,6 +10,8 @@ def run(tier, seed):
     k = 3 if tier == "quick" else 4
     # every net case is executed on an optimised AND an unoptimised engine; both must give an Ideal verdict
     _, rep1 = netcommon.mc_and_replay(v, wd, "c05", k, False, workers=12 if tier == "quick" else 15)
+    vlib.require(rep1.get("counters", {}).get("fused_rule_observed", 0) > 100, "no fused rules observed: the Optimizer.tla binding is vacuous")
+    netcommon.optimizer_selftest(v, wd)
     _, rep2 = netcommon.mc_and_replay(v, wd, "c01d", 3 if tier == "quick" else 4, False)
     # explicit optimise on a live engine, inside histories (Blocker::optimize)
     _, rep3, _ = enginecommon.histories(v, wd, "blocker", 4 if tier == "quick" else 5)
@@ -24,7 +26,9 @@ def run(tier, seed):
                     "all lists of <= %d rules from 23 same-bucket near-twins differing in exactly one of {exception, important, tag, regex-ness, "
                     "anchors, type, party, domain, hostname anchor, redirect, removeparam} x tag sets x 7 requests, each on engines built with "
                     "optimisation on and off; the domain-dispatch pool (shared rules across buckets); and every history of 4-5 operations that "
-                    "includes Blocker::optimize on a live engine" % k, exhaustive=True)
+                    "includes Blocker::optimize on a live engine; the fuse groups spec/Optimizer.tla computes (category lists, histogram bucket choice, "
+                    "grouping key) are compared with the groups visible in the debug text of the optimised engine (drift, not violation), and TLC checks "
+                    "FuseSound on every list" % k, exhaustive=True)
 
 
 def replay(path):
